@@ -38,10 +38,14 @@ def expected_refusal(prog, flex_opts, backend, workdir, uses_reject=False):
     if full or fast:
         if uses_reject:
             return ["REJECT cannot be used with -f or -F"]
-        if any(r.get('trail') not in (None, '$') for r in prog['rules']):
+        msgs = ["variable trailing context rules cannot be used with -f or -F", "%option yylineno cannot be used with REJECT"]
+        rules = prog['rules']
+        # a '|' action makes the trailing context of the following rule variable (flex warns about it)
+        if any(rules[i].get('bar') and rules[i + 1].get('trail') is not None for i in range(len(rules) - 1)):
+            return msgs
+        if any(r.get('trail') not in (None, '$') for r in rules):
             if 'variable' in rule_kinds(prog, workdir):
-                return ["variable trailing context rules cannot be used with -f or -F",
-                        "%option yylineno cannot be used with REJECT"]
+                return msgs
     return None
 
 
@@ -128,7 +132,7 @@ def eval_case(flex, workdir, prog, spec_text, flex_opts, inputs, fuel=30000, che
             r = real.get((ii, sc))
             if r is not None and all(isinstance(x[0], int) for x in r):
                 toks = "(" + " ".join("(%d %d)" % (x[0], x[1]) for x in r) + ")"
-                queries.append("(validate %d 1 %s %s)" % (sc, wsx, toks))
+                queries.append("(validate_o %s %d 1 %s %s)" % (scanner.owners_sx(prog), sc, wsx, toks))
                 order.append(('validate', ii, sc))
     case = "(case %s\n%s\n(queries (%s)))\n" % (scanner.sx_program(prog), tsx, "\n".join(queries))
     rc, out, err = scanner.run_driver(case, workdir, timeout=driver_timeout)
@@ -189,7 +193,8 @@ def eval_case(flex, workdir, prog, spec_text, flex_opts, inputs, fuel=30000, che
                 res['problems'].append(('scanner-output-garbled', str(r[:3])))
             continue
         rr = [(a, b) for a, b, _ in r]
-        if rr != [tuple(x) for x in v]:
+        own = scanner.owners(prog)
+        if rr != [(own.get(x[0], x[0]), x[1]) for x in v]:
             res['problems'].append(('model-mismatch', "sc=%d input=%s real=%s model=%s" % (sc, hexs(inputs[ii]), rr[:30], v[:30])))
     return res
 
@@ -293,10 +298,10 @@ def eval_reject_case(flex, workdir, prog, policies, rng, flex_opts, inputs, back
                 res['problems'].append(('scanner-abnormal', "rc=%s sc=%d input=%s stderr=%s" % (rc, sc, hexs(w), err.decode(errors="replace")[:200])))
                 continue
             real[(ii, sc)] = scanner.parse_tokens(out)
-            queries.append("(rejtokens spec %d 1 %s %s)" % (sc, wsx, psx))
+            queries.append("(rejtokens spec %d 1 %s %s ())" % (sc, wsx, psx))
             order.append(('spec', ii, sc))
             if tables.is_reject(t):
-                queries.append("(rejtokens t %d 1 %s %s)" % (sc, wsx, psx))
+                queries.append("(rejtokens t %d 1 %s %s %s)" % (sc, wsx, psx, tables.adj_sexp(t)))
                 order.append(('view', ii, sc))
     case = "(case %s\n%s\n(queries (%s)))\n" % (scanner.sx_program(prog), tsx, "\n".join(queries))
     rc, out, err = scanner.run_driver(case, workdir, timeout=300)
